@@ -50,6 +50,10 @@ def workspaces(out, tier, seed):
         r = rnd.random()
         ws.append({"files": [["m1", broken(text_of(c), rnd)], ["m2", broken(LIB, rnd) if r < 0.2 else LIB], ["sub/m2", broken(SUB, rnd) if r > 0.8 else SUB]],
                    "label": "broken"})
+    # modules that belong to no package of the package graph (a free-standing file; a project whose graph is not assembled yet):
+    # imports do not resolve there, everything inside the file does - and the three views must still be each other's inverse
+    for c in main.sample(rnd, 40 if tier == "quick" else 400):
+        ws.append({"files": [["m1", text_of(c)]], "label": "no-package", "shape": "no-package"})
     # two files of one package that map to the same module name (src/m1.gleam and test/m1.gleam; also of the library module m2):
     # Gleam rejects the duplicate, the editor workspace can be in that state - every file is still queried and its answers
     # must still be each other's inverse
